@@ -15,7 +15,7 @@ import (
 	"github.com/hashicorp/serf/cmd/serf/command/agent"
 )
 
-// C31: configuration layering. Ops: `merge A B`, `assoc A B C`, `read <path>…`
+// C31: configuration layering. Ops: `merge A B`, `assoc A B C`, `reuse BASE B C`, `read <path>…`
 // (formats: lean/SerfModel/Check/C31.lean). Configurations are built by reflection
 // over agent.Config, so the field list is always the one of the code under test.
 
@@ -282,6 +282,8 @@ func c31Exec(ops []string) []string {
 			a, b, c, _ = mk()
 			r := agent.MergeConfig(a, agent.MergeConfig(b, c))
 			outs = append(outs, c31Show(l, false)+" "+c31Show(r, false))
+		case len(f) == 4 && f[0] == "reuse":
+			outs = append(outs, c31Reuse(f[1], f[2], f[3]))
 		case len(f) >= 1 && f[0] == "read":
 			outs = append(outs, c31Read(f[1:]))
 		default:
@@ -289,6 +291,69 @@ func c31Exec(ops []string) []string {
 		}
 	}
 	return outs
+}
+
+// c31Reuse merges the SAME base configuration twice: r1 = MergeConfig(base, b), then
+// r2 = MergeConfig(base, c). The base's list fields are rebuilt with spare capacity
+// (cap > len, as slices grown by append have - e.g. the command-line flag parser's), which is
+// when an implementation that appends onto an input's slice writes into the input's backing
+// array. Reported: r1 as it reads AFTER the second merge, r2, and a flag:
+//   result-changed         r1 no longer reads as it did right after the first merge
+//   input-storage-written  the backing array of one of base's lists (up to its capacity), or
+//                          base / b / c themselves, differ from copies taken before the calls
+func c31Reuse(tb, t1, t2 string) string {
+	base, ok0 := c31Parse(tb)
+	b, ok1 := c31Parse(t1)
+	c, ok2 := c31Parse(t2)
+	if !ok0 || !ok1 || !ok2 {
+		return "bad-op"
+	}
+	base0, _ := c31Parse(tb)
+	b0, _ := c31Parse(t1)
+	c0, _ := c31Parse(t2)
+	v := reflect.ValueOf(base).Elem()
+	type backing struct {
+		full []string // the whole backing array, aliasing base's storage
+		snap []string
+	}
+	var backs []backing
+	for _, f := range c31Fields {
+		if f.kind != "list" {
+			continue
+		}
+		fv := v.FieldByIndex(f.path)
+		l := fv.Interface().([]string)
+		if l == nil {
+			continue
+		}
+		grown := make([]string, len(l), len(l)+3)
+		copy(grown, l)
+		fv.Set(reflect.ValueOf(grown))
+		full := grown[:cap(grown)]
+		backs = append(backs, backing{full: full, snap: append([]string(nil), full...)})
+	}
+	r1 := agent.MergeConfig(base, b)
+	s1 := c31Show(r1, false)
+	r2 := agent.MergeConfig(base, c)
+	s1after := c31Show(r1, false)
+	var flags []string
+	if s1after != s1 {
+		flags = append(flags, "result-changed")
+	}
+	written := c31Show(base, true) != c31Show(base0, true) || !reflect.DeepEqual(b, b0) || !reflect.DeepEqual(c, c0)
+	for _, bk := range backs {
+		if !reflect.DeepEqual(bk.full, bk.snap) {
+			written = true
+		}
+	}
+	if written {
+		flags = append(flags, "input-storage-written")
+	}
+	flag := "ok"
+	if len(flags) > 0 {
+		flag = strings.Join(flags, "+")
+	}
+	return s1after + " " + c31Show(r2, false) + " " + flag
 }
 
 // c31JSON renders the JSON-settable part of a configuration: every field with a
@@ -553,6 +618,33 @@ func c31Gen(rng *rand.Rand, tier string) []Case {
 			}
 		}
 	}
+	// the same base merged twice; the executor gives the base's lists spare capacity
+	for _, f := range c31Fields {
+		if f.kind != "list" {
+			continue
+		}
+		for _, vb := range []string{"lE", "l78", "l78,79"} {
+			for _, v1 := range []string{"l62", "l62,63"} {
+				for _, v2 := range []string{"l63", "l64,65,66"} {
+					add("reuse", true, fmt.Sprintf("reuse %s %s %s", c31One(f, vb), c31One(f, v1), c31One(f, v2)))
+				}
+			}
+		}
+	}
+	for _, f := range c31Fields {
+		if f.kind == "tags" {
+			add("reuse", true, fmt.Sprintf("reuse %s %s %s", c31One(f, "t61:31"), c31One(f, "t62:32"), c31One(f, "t61:33,63:34")))
+			add("reuse", true, fmt.Sprintf("reuse %s %s %s", c31One(f, "tE"), c31One(f, "t62:32"), c31One(f, "t63:34")))
+		}
+	}
+	nReuse := 150
+	if tier == "thorough" {
+		nReuse = 5000
+	}
+	for i := 0; i < nReuse; i++ {
+		d := 1 + rng.Intn(3)
+		add("rreuse", true, fmt.Sprintf("reuse %s %s %s", c31Random(rng, d), c31Random(rng, d), c31Random(rng, d)))
+	}
 	nRand, nRead := 400, 150
 	if tier == "thorough" {
 		nRand, nRead = 20000, 3000
@@ -655,7 +747,7 @@ func init() {
 	register(&Prop{
 		ID: "C31",
 		Rule: "systematic: every Config field (reflection over agent.Config) × every ordered pair of palette values (merge) and every triple over a reduced palette (assoc), other fields zero; " +
-			"random sparse/dense pairs and triples over all fields (negative numbers, nil/empty maps and lists, empty keys); ReadConfigPaths on real temp directories (files, directories with .json / non-.json / undecodable / sub-directory entries, missing paths) " +
+			"the same base configuration merged twice (`reuse`: base lists rebuilt with cap > len, earlier result and the inputs' backing arrays re-read after the later merge); random sparse/dense pairs and triples over all fields (negative numbers, nil/empty maps and lists, empty keys); ReadConfigPaths on real temp directories (files, directories with .json / non-.json / undecodable / sub-directory entries, missing paths) " +
 			"restricted to JSON-round-tripping values; non-trivial = both later operands non-zero (pair/triple), ≥2 selected sources (read); distinct = distinct op line",
 		Gen:  c31Gen,
 		Exec: c31Exec,
